@@ -2,6 +2,11 @@ import PlasVerif.Proofs.Config
 import PlasVerif.Proofs.ConfigInterp
 import PlasVerif.Proofs.ConfigAcyclic
 import PlasVerif.Proofs.ConfigDomain
+import PlasVerif.Proofs.ConfigTotal
+import PlasVerif.Proofs.ConfigRouting
+import PlasVerif.Proofs.ConfigReadBack
+import PlasVerif.Proofs.ConfigBuiltins
+import PlasVerif.Proofs.ConfigFloat
 import PlasVerif.Generated.Config
 /-!
 # C16 — Configuration values come from defaults, files and command line in that order
@@ -323,23 +328,228 @@ theorem table_flags_distinct : flagsDistinct PlasVerif.Generated.Config.table = 
 
 /-! ## the code does not raise inside the domain -/
 
-/-- Full statement (not proved): on a well-formed table with unambiguous option strings, if every file value and
-    every command-line occurrence is in the spec's domain and the denotation of every option is defined, the
-    layering finishes (so, by `run_refines_den`, with exactly the prescribed values). -/
-def run_defined_on_domain_statement : Prop :=
-  ∀ (T : Table) (files : List File) (argv : List Occ), WF T = true → flagsDistinct T = true →
-    inDomain T files argv = true → (∀ i o, T[i]? = some o → (den T files argv i).isSome) →
-    ∃ st, run false T files argv = .ok st
+/-- **The code raises nothing inside the domain.**  On every table with distinct section/key pairs: if every
+    command-line occurrence is a registered option string with arguments of the option's arity and type, every file
+    value addressed to a scalar option converts (`inDomain`), and the denotation of every option is defined (dictionary
+    entries convert, `--link` has 2 or 3 arguments), then `parse_args`, `read` (all files, all sections, all lines) and
+    `updateFromDict` (all options) finish.  No hypothesis on option strings being unambiguous is needed. -/
+theorem run_defined_on_domain (T : Table) (hwf : WF T = true) (files : List File) (argv : List Occ)
+    (hdom : inDomain T files argv = true)
+    (hden : ∀ i o, T[i]? = some o → (den T files argv i).isSome = true) :
+    ∃ st, run false T files argv = .ok st :=
+  PlasVerif.Proofs.ConfigTotal.run_total T hwf files argv hdom hden
 
-/-- Proved part: the command line is accepted (`parse_args` does not exit) whenever every occurrence is a registered
-    option string with arguments of the option's arity and type.  Missing: that `read` and `updateFromDict` do not
-    raise inside the domain (the converses of `files_den` / `cli_den` along the global loops); this direction is
-    carried by the correspondence streams (on every generated in-domain layering the real code returns the values
-    of the spec and raises nothing). -/
-theorem run_defined_on_domain_partial (T : Table) (argv : List Occ) (h : argv.all (occWf T) = true) :
+/-- **Layering, both directions**: inside the domain the code finishes *and* every option holds the prescribed value. -/
+theorem layering_exact_on_domain (T : Table) (hwf : WF T = true) (files : List File) (argv : List Occ)
+    (hdom : inDomain T files argv = true)
+    (hden : ∀ i o, T[i]? = some o → (den T files argv i).isSome = true) :
+    ∃ st, run false T files argv = .ok st ∧ ∀ i o, T[i]? = some o → den T files argv i = some (st i) := by
+  obtain ⟨st, h⟩ := run_defined_on_domain T hwf files argv hdom hden
+  exact ⟨st, h, fun i o hi => run_refines_den T hwf files argv st h i o hi⟩
+
+/-- the command-line part alone: `parse_args` accepts every in-domain command line -/
+theorem parse_args_accepts_domain (T : Table) (argv : List Occ) (h : argv.all (occWf T) = true) :
     parseArgs T argv = .ok () := PlasVerif.Proofs.ConfigDomain.parseArgs_ok T argv h
 
-example : [(⟨[45, 45, 110], [[49]]⟩ : Occ), ⟨[45, 45, 110, 111, 45, 102, 108, 97, 103], []⟩].all (occWf exT) = true := by decide
+/-- non-vacuity: the two example files and a command line touching a scalar, a boolean and the dictionary are in the
+    domain and every denotation is defined -/
+example : inDomain exT [exF1, exF2] [⟨[45, 45, 110], [[49]]⟩, ⟨[45, 45, 110, 111, 45, 102, 108, 97, 103], []⟩,
+      ⟨[45, 45, 109, 97, 112], [[107], [49]]⟩] = true ∧
+    (List.range 5).all (fun i => (den exT [exF1, exF2] [⟨[45, 45, 110], [[49]]⟩,
+      ⟨[45, 45, 110, 111, 45, 102, 108, 97, 103], []⟩, ⟨[45, 45, 109, 97, 112], [[107], [49]]⟩] i).isSome) = true := by decide
+
+/-! ## type-appropriate values: what is written is what is read -/
+
+/-- an integer written the way `str()` prints it is read back as that integer (file and command line use the same conversion) -/
+theorem int_written_is_read (n : Int) :
+    atomFromString false .int (intStr n) = .ok (.int n) ∧ specAtom .int (intStr n) = some (.int n) := by
+  simp [atomFromString, specAtom, PlasVerif.Proofs.ConfigBuiltins.parseInt_intStr, Functor.map, Except.map, Except.toOption]
+
+/-- a float written the way `str()` prints it (decimal `m / 10^e` in normal form) is read back as that float -/
+theorem float_written_is_read (m : Int) (e : Nat) (hn : e = 0 ∨ m.natAbs % 10 ≠ 0) :
+    atomFromString false .flt (fltStr m e) = .ok (.flt m e) ∧ specAtom .flt (fltStr m e) = some (.flt m e) := by
+  simp [atomFromString, specAtom, PlasVerif.Proofs.ConfigFloat.parseDec_fltStr m e hn, Functor.map, Except.map, Except.toOption]
+
+/-- `-2.25` is `-225 / 10^2`, `3.0` is `3 / 10^0` -/
+example : fltStr (-225) 2 = [45, 50, 46, 50, 53] ∧ fltStr 3 0 = [51, 46, 48] := by decide
+
+/-- non-empty blank-free words written separated by one blank are read back as exactly those words -/
+theorem words_written_are_read (ws : List Str) (h : ∀ w ∈ ws, w ≠ [] ∧ w.contains 32 = false) :
+    shlexSplit (joinWith [32] ws) = ws := PlasVerif.Proofs.ConfigBuiltins.shlexSplit_join ws h
+
+/-- a file that (last) says `key = <n>` for an integer option, and no flag of it on the command line: the value is `n` -/
+theorem file_sets_int (T : Table) (files : List File) (argv : List Occ) (i : Nat) (o : Opt) (n : Int)
+    (hi : T[i]? = some o) (hty : o.ty = .atom .int)
+    (hlast : (mentions T i o files).getLast? = some (.direct (intStr n))) (hcli : cliOccs o argv = []) :
+    den T files argv i = some (.atom (.int n)) := by
+  rw [file_replaces_scalar T files argv i o .int hi hty _ hlast hcli]
+  simp [mentionStr, (int_written_is_read n).2]
+
+/-- … for a boolean option and any of the words yes/true/on/1/no/false/off/0: the value is the word's meaning -/
+theorem file_sets_bool (T : Table) (files : List File) (argv : List Occ) (i : Nat) (o : Opt) (p : Str × Bool)
+    (hp : p ∈ boolWords) (hi : T[i]? = some o) (hty : o.ty = .atom .bool)
+    (hlast : (mentions T i o files).getLast? = some (.direct p.1)) (hcli : cliOccs o argv = []) :
+    den T files argv i = some (.atom (.bool p.2)) := by
+  rw [file_replaces_scalar T files argv i o .bool hi hty _ hlast hcli]
+  have : specBool p.1 = some p.2 := by
+    rw [← bool_words, bool_words_table p hp]; rfl
+  simp [mentionStr, specAtom, this]
+
+/-- a dictionary line `name = k=v` (blank-free, comma-free, no `=` in the key) denotes the single entry `k ↦ v`,
+    and so does the unknown-key line `k = v` routed to the dictionary option: both put `k ↦ convert v` -/
+theorem dict_entry_written_is_read (t : ATy) (cur : List (Str × Atom)) (k v : Str) (hk : k.contains 61 = false)
+    (hk32 : k.contains 32 = false) (hk44 : k.contains 44 = false) (hv32 : v.contains 32 = false) (hv44 : v.contains 44 = false) :
+    dictMention t cur (.direct (k ++ 61 :: v)) = putEntry t cur k v ∧ dictMention t cur (.entry k v) = putEntry t cur k v := by
+  refine ⟨?_, rfl⟩
+  simp only [dictMention, PlasVerif.Proofs.ConfigBuiltins.entriesOf_single k v hk hk32 hk44 hv32 hv44, bind, Option.bind,
+    List.foldlM_cons, List.foldlM_nil]
+  cases putEntry t cur k v <;> rfl
+
+/-- `-120` and `a bc d` -/
+example : intStr (-120) = [45, 49, 50, 48] ∧ shlexSplit (joinWith [32] [[97], [98, 99], [100]]) = [[97], [98, 99], [100]] := by decide
+
+/-! ## sources are independent; the command line comes after the files -/
+
+/-- **Each option independently**: the value of an option depends only on the file lines that mention *it* and on the
+    occurrences of *its* option strings; whatever else the files and the command line contain is irrelevant. -/
+theorem den_depends_only_on_own_sources (T : Table) (files files' : List File) (argv argv' : List Occ) (i : Nat) (o : Opt)
+    (hi : T[i]? = some o) (hf : mentions T i o files = mentions T i o files') (hc : cliOccs o argv = cliOccs o argv') :
+    den T files argv i = den T files' argv' i := by
+  simp only [den, hi, hf, hc]
+
+/-- with unambiguous option strings, a command-line occurrence belongs to at most one option -/
+theorem occurrence_belongs_to_one_option (T : Table) (hfd : flagsDistinct T = true) (i j : Nat) (oi oj : Opt)
+    (hi : T[i]? = some oi) (hj : T[j]? = some oj) (a : Occ)
+    (h1 : (flagsOf oi).contains a.flag = true) (h2 : (flagsOf oj).contains a.flag = true) : i = j := by
+  simp only [flagsDistinct, decide_eq_true_eq] at hfd
+  exact PlasVerif.Proofs.ConfigRouting.flatMap_nodup_unique (fun o : Opt => o.flags ++ o.noflags) T hfd i j oi oj a.flag hi hj
+    (PlasVerif.Proofs.ConfigRouting.flagsOf_sub oi a.flag h1) (PlasVerif.Proofs.ConfigRouting.flagsOf_sub oj a.flag h2)
+
+/-- **Defaults → files → command line, for every option class**: the final value is the command-line stage applied to
+    the value the files alone produce (for dictionaries: command-line entries are put, in order, into the dictionary the
+    files produced, so they override per key). -/
+theorem cli_applied_after_files (T : Table) (files : List File) (argv : List Occ) (i : Nat) (o : Opt) (hi : T[i]? = some o) :
+    den T files argv i = (den T files [] i).bind fun v => denCli o v (cliOccs o argv) := by
+  simp only [den, hi, bind, Option.bind, cliOccs, List.filter_nil]
+  cases hf : denFiles o (mentions T i o files) with
+  | none => rfl
+  | some v =>
+    have ht := denFiles_typed hf
+    have : denCli o v [] = some v := by
+      unfold denCli
+      cases hty : o.ty with
+      | atom t => cases t <;> simp
+      | list =>
+        cases v with
+        | list xs => simp
+        | atom a => simp [typedVal, hty] at ht
+        | dict k => simp [typedVal, hty] at ht
+      | dict t l =>
+        cases v with
+        | dict k => simp [pure]
+        | atom a => simp [typedVal, hty] at ht
+        | list xs => simp [typedVal, hty] at ht
+    simp [this]
+
+/-- command-line entries update a dictionary option per key after the files: `--map k 1` over `[s] k = 7` gives `k ↦ 1` -/
+example : den exT [exF1] [⟨[45, 45, 109, 97, 112], [[107], [49]]⟩, ⟨[45, 45, 109, 97, 112], [[106], [50]]⟩] 4
+    = some (.dict [([107], .int 1), ([106], .int 2)]) := by decide
+
+/-! ## where one file line goes (the loop body of `ConfigManager.read`) -/
+
+/-- a line whose key names an option of its section is converted by that option's class and touches no other option -/
+theorem known_key_sets_its_option (T : Table) (hwf : WF T = true) (j : Nat) (o : Opt) (hj : T[j]? = some o) (st : St) (v : Str) :
+    readItem false T o.sec st (o.key, v) = (setFromString false o.ty (st j) v).map (st.set j) := by
+  simp only [WF, Bool.and_eq_true] at hwf
+  exact PlasVerif.Proofs.ConfigRouting.known_key hwf.1 hj st v
+
+/-- **Unknown-key routing**: a line whose key no option of the section has becomes one entry `key ↦ value` of the section's
+    *first* dictionary option (converted by that option's entry type), and touches nothing else -/
+theorem unknown_key_routed_to_first_dict (T : Table) (d : Nat) (o : Opt) (t : ATy) (l : Bool) (hd : T[d]? = some o)
+    (hty : o.ty = .dict t l) (hfirst : firstDict T d o = true) (k : Str) (hk : keyKnown T o.sec k = false) (st : St) (v : Str) :
+    readItem false T o.sec st (k, v) = (dictSetStr t (st d) k v).map (st.set d) :=
+  PlasVerif.Proofs.ConfigRouting.unknown_key_first_dict hd hty hfirst hk st v
+
+/-- … and is ignored when the section has no dictionary option -/
+theorem unknown_key_ignored_without_dict (T : Table) (sec k : Str) (hk : keyKnown T sec k = false)
+    (hn : ∀ o ∈ T, o.sec = sec → isDict o.ty = false) (st : St) (v : Str) :
+    readItem false T sec st (k, v) = .ok st :=
+  PlasVerif.Proofs.ConfigRouting.unknown_key_no_dict hk hn st v
+
+/-- a file line concerns at most one option (the spec's `mentionOf` is a partial function from lines to options) -/
+theorem line_concerns_one_option (T : Table) (hwf : WF T = true) (i j : Nat) (oi oj : Opt) (hi : T[i]? = some oi)
+    (hj : T[j]? = some oj) (it : Item) (h1 : (mentionOf T i oi it).isSome = true) (h2 : (mentionOf T j oj it).isSome = true) :
+    i = j := by
+  simp only [WF, Bool.and_eq_true] at hwf
+  exact PlasVerif.Proofs.ConfigRouting.mention_unique hwf.1 hi hj it h1 h2
+
+/-- `[s] k = 7` over `exT`: `k` is no option of `[s]`, so it lands in `map` (index 4), converted to an integer -/
+example : (readItem false exT [115] (init exT) ([107], [55])).toOption.map (fun st => (List.range 5).map st)
+    = some [.atom (.str [100]), .atom (.int 2), .atom (.bool true), .list [], .dict [([107], .int 7)]] := by decide
+example : keyKnown exT [115] [107] = false ∧ firstDict exT 4 exT[4] = true := by decide
+
+/-! ## how a name is resolved (`InterpolationWrapper.__getitem__`) -/
+
+/-- **Name resolution, including the KeyError quirk**: `%(name)s` resolves to the first option with that key (sections in
+    order) whose own read-back does not raise `KeyError`; a `KeyError` raised *inside* a candidate's own interpolation
+    is swallowed like an absent key; any other exception of a candidate reached first propagates; no candidate left:
+    `KeyError`. -/
+theorem lookup_resolution (get : Nat → Except Err Val) (cands : List Nat) :
+    lookupWith get cands =
+      match cands.find? (fun j => decide (get j ≠ .error .keyError)) with
+      | none => .error .keyError
+      | some j => (get j).map valStr :=
+  PlasVerif.Proofs.ConfigRouting.lookupWith_char get cands
+
+theorem lookup_keyerror_moves_on (get : Nat → Except Err Val) (j : Nat) (js : List Nat) (h : get j = .error .keyError) :
+    lookupWith get (j :: js) = lookupWith get js := by simp [lookupWith, h]
+
+theorem lookup_other_error_propagates (get : Nat → Except Err Val) (j : Nat) (js : List Nat) (e : Err)
+    (h : get j = .error e) (he : e ≠ .keyError) : lookupWith get (j :: js) = .error e := by
+  cases e <;> simp_all [lookupWith]
+
+/-- `[sa] base-url = x%(nosuch)s`, `[sb] base-url = second`, `[sb] alpha = <%(base-url)s>`: `alpha` reads `<second>`
+    because the first candidate raises `KeyError` inside its own interpolation -/
+def exQ : Table := [
+  ⟨[115, 97], [98], .atom .str, .atom (.str (render [.lit [120], .ref [110]])), [], []⟩,
+  ⟨[115, 98], [98], .atom .str, .atom (.str [50]), [], []⟩,
+  ⟨[115, 98], [97], .atom .str, .atom (.str (render [.lit [60], .ref [98], .lit [62]])), [], []⟩]
+example : readBack exQ (init exQ) 2 = .ok (.atom (.str [60, 50, 62])) ∧ readBack exQ (init exQ) 0 = .error .keyError := by decide
+
+/-! ## the executable oracle of the spec is met -/
+
+/-- the spec's own format-string parser only accepts strings of the grammar: its result renders back to the input -/
+theorem spec_parser_sound (f : Nat) (s : Str) (segs : List Seg) (h : parseSegs f s = some segs) :
+    render segs = s ∧ ∀ g ∈ segs, g.wf = true :=
+  PlasVerif.Proofs.ConfigReadBack.parseSegs_sound f s segs h
+
+/-- **Reading back**: wherever the spec's read-back oracle is defined (every string a format string of the grammar,
+    every reference naming an option whose own read-back is defined, to any depth), `config[section][key]` of the model
+    returns exactly the oracle's value: references replaced by the read-back value of the first option with that
+    key, `%%` by `%`, lists item by item, other values unchanged. -/
+theorem readBack_meets_oracle (T : Table) (σ : Nat → Option Val) (st : St) (hσ : ∀ j x, σ j = some x → st j = x)
+    (f i : Nat) (v : Val) (h : specReadBack T σ f i = some v) : getItem T st f i = .ok v :=
+  PlasVerif.Proofs.ConfigReadBack.specReadBack_sound T σ st hσ f i v h
+
+example : specReadBack exR (fun i => some (init exR i)) (fuelFor exR) 0 = some (.atom (.str [120, 55, 37])) := by decide
+
+/-- **End to end** (this is the comparison the driver's `model` and `spec` columns make, for all inputs): inside the
+    domain the layering finishes, and every option for which the spec's oracle (denotation, then read-back) is defined
+    reads back as exactly that value. -/
+theorem model_meets_spec_oracle (T : Table) (hwf : WF T = true) (files : List File) (argv : List Occ)
+    (hdom : inDomain T files argv = true)
+    (hden : ∀ i o, T[i]? = some o → (den T files argv i).isSome = true) :
+    ∃ st, run false T files argv = .ok st ∧
+      ∀ i v, specReadBack T (den T files argv) (fuelFor T) i = some v → readBack T st i = .ok v := by
+  obtain ⟨st, hrun, hval⟩ := layering_exact_on_domain T hwf files argv hdom hden
+  refine ⟨st, hrun, fun i v h => readBack_meets_oracle T (den T files argv) st ?_ (fuelFor T) i v h⟩
+  intro j x hj
+  cases hT : T[j]? with
+  | none => simp [den, hT] at hj
+  | some o =>
+    have := hval j o hT
+    rw [hj] at this
+    exact (Option.some.inj this).symm
 
 /-- hence the layering theorem applies to the live table -/
 theorem live_table_layering (files : List File) (argv : List Occ) (st : St)
